@@ -246,7 +246,7 @@ var checkLaws = ev.Register("mwu-laws", func(c *Case) ev.Outcome {
 		if aerr != nil {
 			return ev.Outcome{Err: aerr}
 		}
-		if pr.err != nil || pr.res.U != r.U || math.Float64bits(pr.res.P) != math.Float64bits(r.P) {
+		if pr.err != nil || pr.res.U != r.U || !samePval(pr.res.P, r.P) {
 			return ev.Fail("alt=%d: result changes under reordering: U %v -> %v, P %v -> %v (err %v)", alt, r.U, pr.res.U, r.P, pr.res.P, pr.err)
 		}
 		// one strictly increasing map applied to all values: bit-identical
@@ -254,7 +254,7 @@ var checkLaws = ev.Register("mwu-laws", func(c *Case) ev.Outcome {
 		if aerr != nil {
 			return ev.Outcome{Err: aerr}
 		}
-		if mr.err != nil || mr.res.U != r.U || math.Float64bits(mr.res.P) != math.Float64bits(r.P) {
+		if mr.err != nil || mr.res.U != r.U || !samePval(mr.res.P, r.P) {
 			return ev.Fail("alt=%d: result changes under a strictly increasing map: U %v -> %v, P %v -> %v (err %v)", alt, r.U, mr.res.U, r.P, mr.res.P, mr.err)
 		}
 	}
@@ -312,6 +312,12 @@ var checkLaws = ev.Register("mwu-laws", func(c *Case) ev.Outcome {
 	}
 	return out
 })
+
+// samePval: "unchanged" for a p-value means equal up to the last few bits (an
+// implementation is free to accumulate in a different order), not bit-identity.
+func samePval(a, b float64) bool {
+	return a == b || math.Abs(a-b) <= 16*ref.Eps*math.Max(math.Abs(a), math.Abs(b))
+}
 
 func minInt(a, b int) int {
 	if a < b {
